@@ -256,11 +256,18 @@ def result_event(rec, res):
 
 
 def make_callback(rec, kind, stop_at, overwrite=False):
-    """User callbacks of the various shapes; every call is logged into the trace."""
+    """User callbacks of the various shapes; every call is logged into the trace.  Kinds whose name
+    starts with `ir` ask for the keyword convention (parameter set == {intermediate_result}), the
+    others for the positional one."""
     n = [0]
 
-    def log(x, f):
+    def log(arg, want_result):
         n[0] += 1
+        is_result = hasattr(arg, "x") and hasattr(arg, "fun")
+        if is_result != want_result:
+            rec.extra.setdefault("convention_errors", []).append(
+                {"kind": kind, "call": n[0], "received": type(arg).__name__, "expected": "OptimizeResult" if want_result else "ndarray"})
+        x, f = (arg.x, arg.fun) if is_result else (arg, None)
         rec.ev("cb", rec.pid(x), NOF if f is None else f2b(f))
         rec.user_calls.append(("cb", np.array(x, float)))
         if overwrite:
@@ -270,24 +277,51 @@ def make_callback(rec, kind, stop_at, overwrite=False):
             raise StopIteration
     if kind == "xk":
         def cb(xk):
-            log(xk, None)
+            log(xk, False)
         return cb
     if kind == "ir":
         def cb(intermediate_result):
-            log(intermediate_result.x, intermediate_result.fun)
+            log(intermediate_result, True)
+        return cb
+    if kind == "ir_kwonly":
+        def cb(*, intermediate_result):
+            log(intermediate_result, True)
         return cb
     if kind == "lambda":
-        return lambda xk: log(xk, None)
+        return lambda xk: log(xk, False)
+    if kind == "ir_lambda":
+        return lambda intermediate_result: log(intermediate_result, True)
     if kind == "object":
         class CB:
             def __call__(self, intermediate_result):
-                log(intermediate_result.x, intermediate_result.fun)
+                log(intermediate_result, True)
         return CB()
+    if kind == "object_xk":
+        class CB:
+            def __call__(self, x):
+                log(x, False)
+        return CB()
+    if kind == "ir_method":
+        class H:
+            def handler(self, intermediate_result):
+                log(intermediate_result, True)
+        return H().handler
+    if kind == "method_xk":
+        class H:
+            def handler(self, xk):
+                log(xk, False)
+        return H().handler
     if kind == "partial":
         import functools
 
         def cb(extra, xk):
-            log(xk, None)
+            log(xk, False)
+        return functools.partial(cb, 7)
+    if kind == "ir_partial":
+        import functools
+
+        def cb(extra, intermediate_result):
+            log(intermediate_result, True)
         return functools.partial(cb, 7)
     raise ValueError(kind)
 
@@ -332,7 +366,8 @@ def record(problem, timeout=120, inject=None):
     cbk = problem.get("callback_kind")
     callback = make_callback(rec, cbk, problem.get("stop_at"), problem.get("overwrite", False)) if cbk else None
     out = {"rec": rec, "spec": spec, "ncon": ncon, "exception": None, "res": None}
-    with warnings.catch_warnings():
+    import io
+    with warnings.catch_warnings(), contextlib.redirect_stdout(io.StringIO()):
         warnings.simplefilter("ignore")
         with patched(rec, spec, inject):
             try:
